@@ -282,6 +282,13 @@ class SimConsole:
 
     def frame_zone_status(self, pid=None, only=None, **kw):
         zs = [z["status"] for z in self.inst["zones"] if only is None or z["id"] in only]
+        ph = self.inst.get("phantom_zone")
+        if ph is not None and only is None and zs:
+            # a zone / group that was added at the console after the client had read the names:
+            # reported first, ahead of the ones the client knows
+            rec = dict(zs[0])
+            rec["group" if "group" in rec else "zone"] = ph
+            zs = [rec] + zs
         if self.gen == 4:
             return self.f_std(0x2B, b"".join(R.b4_group_status_record(z) for z in zs), pid,
                               **kw)
